@@ -316,7 +316,9 @@ Fixpoint link (gf:rnode -> slot -> rnode * list event) (fuel:nat) (a b:rnode) (t
       end
     end
   end.
-(* 9. for every payload of 9..223 bytes: device ia of node A sends it to device ib of node B (both ready, B with a usable slot and no other
+(* not yet proved *)
+(* 9. proved so far: tp_lib_to_lib_partial in Proofs/TpProofsD.v (every length 9..223, one byte pattern, by evaluation).
+      For every payload of 9..223 bytes: device ia of node A sends it to device ib of node B (both ready, B with a usable slot and no other
       session from A's address); after the link has drained, B has delivered exactly one message - PGN, A's address, B's address, the
       payload - and A's transfer has ended *)
 Definition tp_lib_to_lib_stmt : Prop :=
